@@ -28,10 +28,14 @@ def runs(tier):
     if tier == "thorough":
         c3 = base_constants(); c3.update({"MaxDepth": 2, "MaxExt": 2, "MaxN": 8, "Offsets": vlib.Sub("OffsetsWide")})
         r.append(("c02_edges_depth2", c3, None))
-        c4 = base_constants(); c4.update({"MaxD": 2, "MaxExt": 3, "Merge": False, "MaxProg": 3, "MaxN": 4})
+        c4 = base_constants(); c4.update({"MaxD": 2, "MaxExt": 3, "MaxDepth": 0, "Merge": False, "MaxProg": 3, "MaxN": 9, "Offsets": vlib.Sub("OffsetsOne")})
         r.append(("c02_paths3", c4, None))
         c5 = base_constants(); c5.update({"MaxDepth": 2, "MaxExt": 3, "MaxN": 9, "Merge": False, "MaxProg": 12, "Offsets": vlib.Sub("OffsetsWide")})
-        r.append(("c02_simulate", c5, {"simulate": 30000, "depth": 16}))
+        r.append(("c02_simulate", c5, {"simulate": 300, "depth": 14, "workers": 8}))   # num is per worker; every step of every behaviour is a program
+        c6 = base_constants(); c6.update({"MaxD": 2, "MaxExt": 2, "MaxDepth": 1, "TwinOps": TWIN_OPS, "MaxProg": 2, "Offsets": vlib.Sub("OffsetsOne")})
+        r.append(("c02_twin_depth1", c6, None))
+        c7 = base_constants(); c7.update({"MaxD": 3, "MaxExt": 2, "MaxDepth": 0, "TwinOps": TWIN_OPS, "MaxProg": 3, "Offsets": vlib.Sub("OffsetsOne")})
+        r.append(("c02_twin_d3_prog3", c7, None))
     return r
 
 
